@@ -83,7 +83,8 @@ def main():
     out["confirmed"] = bool(ok)
     print(json.dumps(out, indent=1))
     if ok:
-        d = VERIF / "seeded" / f"{prop}-{n}"
+        name = sys.argv[sys.argv.index("--as") + 1] if "--as" in sys.argv else f"{prop}-{n}"
+        d = VERIF / "seeded" / name
         d.mkdir(parents=True, exist_ok=True)
         (d / "patch.diff").write_text(patch_now)
         shutil.copy(demo, d / "demo.py")
@@ -91,7 +92,7 @@ def main():
                 "origin": "written by an independent sub-agent that was given only the property text and a scratch worktree",
                 "agent_tests_run": ch.get("tests_run", ""),
                 "confirmed_by_builder": {k: out[k] for k in out if k not in ("patch_log",)},
-                "how_to_run": f"git -C /repo apply /verif/seeded/{prop}-{n}/patch.diff && /verif/check <PROP> --tier quick ; git -C /repo checkout -- .",
+                "how_to_run": f"git -C /repo apply /verif/seeded/{name}/patch.diff && /verif/check <PROP> --tier quick ; git -C /repo checkout -- .",
                 "caught_by": []}
         old = d / "meta.json"
         if old.exists():
